@@ -56,12 +56,33 @@ func segment(stream []byte, bounds []int, seg string) [][]byte {
 
 func headerCount(hs []httpref.Header, name string) (n int, vals []string) {
 	for _, h := range hs {
-		if strings.EqualFold(h.Name, name) {
+		if asciiEqualFold(h.Name, name) {
 			n++
 			vals = append(vals, wire.NormVal(h.Value))
 		}
 	}
 	return
+}
+
+// asciiEqualFold: field names are compared byte-wise with ASCII letters folded (Unicode folding would equate
+// U+017F with 's', which is exactly the confusion a near-miss name probes).
+func asciiEqualFold(a, b string) bool {
+	if len(a) != len(b) {
+		return false
+	}
+	for i := 0; i < len(a); i++ {
+		x, y := a[i], b[i]
+		if 'A' <= x && x <= 'Z' {
+			x += 'a' - 'A'
+		}
+		if 'A' <= y && y <= 'Z' {
+			y += 'a' - 'A'
+		}
+		if x != y {
+			return false
+		}
+	}
+	return true
 }
 
 // Judge compares one execution with the expectations. It returns "" or (kind, message).
